@@ -1,6 +1,7 @@
 package main
 
 import (
+	"time"
 	"encoding/json"
 	"fmt"
 	"sort"
@@ -35,9 +36,10 @@ var c10Frames = map[string]string{
 	"nulmeth":  `{"method":null,"more":null}`,
 	"trailing": `{"method":"t.a.R"} x`,
 	"stream":   `{"method":"t.a.LR","more":true}`,
+	"unicase":  `{"method":"ȺȺȺȺ.a"}`, // U+023A: its lower-case form is one byte longer
 }
 
-var c10KindOrder = []string{"call", "more", "oneway", "getinfo", "null", "array", "number", "string", "meth5", "morex", "empty", "params5", "trunc", "badutf", "zero", "big", "herr", "unknown", "nulmeth", "trailing", "stream"}
+var c10KindOrder = []string{"call", "more", "oneway", "getinfo", "null", "array", "number", "string", "meth5", "morex", "empty", "params5", "trunc", "badutf", "zero", "big", "herr", "unknown", "nulmeth", "trailing", "stream", "unicase"}
 
 type c10Desc struct {
 	Frames []string `json:"frames"`          // frame kinds, each NUL-terminated on the wire
@@ -48,6 +50,7 @@ type c10Desc struct {
 	Probe  bool     `json:"probe"`           // a well-behaved connection runs concurrently
 	Stall  int      `json:"stall,omitempty"` // the client never reads: room for Stall bytes of replies (<0: none), it closes only after the probe is done
 	Crowd  int      `json:"crowd,omitempty"` // the victim's script is run by this many connections, one after the other (0 = one)
+	Timed  bool     `json:"timed,omitempty"` // the service runs with an idle timeout whose accept deadline expires (twice) while the victim is connected
 }
 
 // classify restates "a JSON value of the call's shape": null, or an object whose known members,
@@ -149,10 +152,32 @@ func c10Body(d c10Desc) func() {
 		w.LC = st
 		vsched.GoDaemon("M", func() {
 			w.S.VerifSetListener(l)
-			err := w.S.DoListen(w.Ctx, 0)
+			var to time.Duration
+			if d.Timed {
+				to = time.Hour
+			}
+			err := w.S.DoListen(w.Ctx, to)
 			st.ret = fmt.Sprint(err)
 			st.returned = true
 		})
+		if d.Timed {
+			vsched.GoDaemon("T", func() {
+				for i := 0; i < 2; i++ {
+					vsched.Yield("timer", "T", func() bool {
+						// only while the victim's connection has been accepted and is still there (an expiry that finds
+						// nothing but a queued connection may stop an idle service: not this property's business)
+						accepted := false
+						for _, a := range l.Accepted {
+							if strings.HasPrefix(a.Name, "v") && !a.IsClosed() {
+								accepted = true
+							}
+						}
+						return l.Armed() && accepted && !st.victDone && l.Queued() == 0
+					})
+					l.Expire()
+				}
+			})
+		}
 		vsched.GoDaemon("victim", func() {
 			for round := 1; round <= max(1, d.Crowd); round++ {
 				// a crowd: the same script from many connections in a row (per-service bookkeeping that fills up,
@@ -515,8 +540,15 @@ func scenariosC10(tier string) []Scen {
 				}
 				if pure {
 					for _, stall := range []int{-1, 1} {
-						for _, end := range []string{"close", "abort"} {
+						for _, end := range []string{"close", "abort", "close+timed"} {
 							dd := d
+							if end == "close+timed" {
+								if stall != -1 || len(fs) != 1 || fs[0] == "herr" {
+									continue // (after a handler error the service ends the connection itself and may then be idle)
+								}
+								// the same victim on a service with an idle timeout: the accept deadline expires while it is connected
+								end, dd.Timed = "close", true
+							}
 							dd.Cut, dd.End, dd.Stall = n, end, stall
 							b := 2
 							if tier != "quick" {
